@@ -12,11 +12,12 @@ Steps (all in scratch worktrees of /repo under /tmp, removed afterwards):
 """
 import json, os, re, shutil, subprocess, sys, tempfile
 
+SUF = os.environ.get("SEED_SUFFIX", "")
 ENV = dict(os.environ, GOFLAGS="-mod=mod", GOPROXY="off", GOSUMDB="off", GOTOOLCHAIN="local")
 
 
 def sh(cmd, cwd=None, timeout=3000):
-    r = subprocess.run(cmd, shell=True, cwd=cwd, env=ENV, capture_output=True, text=True, timeout=timeout)
+    r = subprocess.run(cmd, shell=True, cwd=cwd, env=ENV, capture_output=True, text=True, errors="replace", timeout=timeout)
     return r.returncode, r.stdout + r.stderr
 
 
@@ -64,7 +65,7 @@ def main():
         # checks against the patched tree
         det = {}
         for chk in [pid] + extra:
-            rc, out = sh(f"VERIF_REPO={w} VERIF_OUT=/tmp/vmon-scratch-out/{pid}-{x} ./run.sh {chk} quick", cwd="/verif", timeout=3000)
+            rc, out = sh(f"VERIF_REPO={w} VERIF_OUT=/tmp/vmon-scratch-out/{pid}-{x}{SUF} ./run.sh {chk} quick", cwd="/verif", timeout=3000)
             sigs = sorted(set(re.findall(r"signature=(\S+)", out)))
             verdict = re.findall(r"verdict=(\w+)", out)
             det[chk] = {"exit": rc, "verdict": verdict[-1] if verdict else None, "signatures": sigs[:12], "inconclusive": re.findall(r"INCONCLUSIVE[^\n]*", out)[:3]}
@@ -84,7 +85,7 @@ def main():
     res["confirmed"] = ok
     res["detected_by_own_check"] = res["checks"][pid]["exit"] == 1
     if ok:
-        dst = f"/verif/seeded/{pid}-{x}"
+        dst = f"/verif/seeded/{pid}-{x}{SUF}"
         os.makedirs(dst, exist_ok=True)
         shutil.copy(patch, os.path.join(dst, "patch.diff"))
         shutil.copy(demo, os.path.join(dst, "demo_test.go"))
